@@ -63,6 +63,10 @@ def check_readers(ctx):
                                    'fluxes': 'flux[m,d,w] == interpolate(theta_w * d[pc] * au)[m,d] * (kpc/d)^2 for the same filter w',
                                    'wavelengths': 'wavelengths[w] filled in the same loop index as flux[..., w]',
                                    'names': 'names == strip(model names of the convolved file)'}[nm])
+            ext_ = m.attrs.get('extended')
+            if isinstance(ext_, Arr):
+                # read with remove_resolved off: no (model, distance, filter) cell is marked as resolved - the fit sets chi^2 to infinity wherever one is
+                compare(ctx, 'ALG-10', '%s: no cell marked as resolved' % tag, where, ext_, Poly(), None, vocab=VOCAB, fns=FNS, detail_ok='the mask of resolved cells is all False')
             if h.interp_args:
                 compare(ctx, 'ALG-10', '%s: interpolate argument' % tag, where, h.interp_args[-1], ref['apertures_au'], None, vocab=VOCAB, fns=FNS,
                         detail_ok='aperture radius == aperture_arcsec * distance[pc] * au')
